@@ -47,6 +47,7 @@ pub fn profile_cfg(profile: &str, content: &mut Rng) -> RunCfg {
         }
         "faults" => {
             c.f_crash = 12;
+            c.f_long_downtime = 150;
             c.f_rpc_write_fault = 50;
             c.f_rpc_reorder = 400;
             c.f_rpc_delay = 200;
@@ -62,6 +63,7 @@ pub fn profile_cfg(profile: &str, content: &mut Rng) -> RunCfg {
         }
         "crashy" => {
             c.f_crash = 45;
+            c.f_long_downtime = 120;
             c.f_rpc_reorder = 300;
             c.f_rpc_delay = 150;
             c.f_pay_bad_outcome = 300;
@@ -100,6 +102,7 @@ pub fn profile_cfg(profile: &str, content: &mut Rng) -> RunCfg {
         }
         "restart" => {
             c.f_crash = 30;
+            c.f_long_downtime = 250;
             c.f_clock_jump = 25;
             c.f_underfund = 350;
             c.f_part_fail = 500;
@@ -120,6 +123,7 @@ pub fn profile_cfg(profile: &str, content: &mut Rng) -> RunCfg {
         }
         "wire" => {
             c.chunking = 1 + content.below(2) as u8;
+            c.pipeline_init = content.chance(1, 2);
             c.backpressure = content.chance(1, 2);
             c.log = content.chance(2, 3);
             c.f_batch = 500;
@@ -221,7 +225,7 @@ fn config_profile(c: &mut RunCfg, content: &mut Rng) {
     let mut pick_i64 = |cands: &[i64], r: &mut Rng| -> i64 { *r.pick(cands) };
     let u16s: [i64; 12] = [0, 1, 2, 34, 35, 143, 144, 1008, 65534, 65535, 65536, -1];
     let u32s: [i64; 9] = [0, 1, 1000, 5000, 4294967295, 4294967296, -1, i64::MAX, 999_999];
-    let secs: [i64; 9] = [0, 1, 7, 60, 600, -1, 65535, 65536, i64::MIN];
+    let secs: [i64; 11] = [0, 1, 7, 60, 600, -1, 65535, 65536, i64::MIN, i64::MAX, 4_000_000_000];
     let mut o = std::collections::BTreeMap::new();
     // Mostly valid assignments, some invalid ones.
     let invalid = content.chance(1, 3);
@@ -238,8 +242,8 @@ fn config_profile(c: &mut RunCfg, content: &mut Rng) {
     o.insert("trampoline-policy-cltv-delta".to_string(), pd);
     let base = if invalid && content.chance(1, 3) { pick_i64(&u32s, content) } else { *content.pick(&[0i64, 1, 1000, 4294967295]) };
     let ppm = if invalid && content.chance(1, 3) { pick_i64(&u32s, content) } else { *content.pick(&[0i64, 1, 5000, 4294967295, 1_000_000]) };
-    let mpp = if invalid && content.chance(1, 3) { pick_i64(&secs, content) } else { *content.pick(&[1i64, 7, 60, 600]) };
-    let pto = if invalid && content.chance(1, 3) { pick_i64(&secs, content) } else { *content.pick(&[0i64, 1, 60, 65535, 65536, 1_000_000]) };
+    let mpp = if invalid && content.chance(1, 3) { pick_i64(&secs, content) } else { *content.pick(&[1i64, 7, 60, 600, 600, i64::MAX, 4_000_000_000]) };
+    let pto = if invalid && content.chance(1, 3) { pick_i64(&secs, content) } else { *content.pick(&[0i64, 1, 60, 65535, 65536, 1_000_000, i64::MAX]) };
     o.insert("trampoline-policy-fee-base".to_string(), base);
     o.insert("trampoline-policy-fee-per-satoshi".to_string(), ppm);
     o.insert("trampoline-mpp-timeout".to_string(), mpp);
@@ -428,7 +432,15 @@ impl RandomSched {
                 self.crashes += 1;
                 let lose = self.rng.permille(c.f_response_lost);
                 self.last_apply_method = None;
-                return Some(Op::Crash { lose_answers: lose });
+                let down_s = if self.rng.permille(c.f_long_downtime) {
+                    *self.rng.pick(&[3600u64, 65_535, 65_537, 86_399, 86_401, 200_000, 1_000_000])
+                } else {
+                    1
+                };
+                return Some(Op::Crash {
+                    lose_answers: lose,
+                    down_s,
+                });
             }
         }
         if c.f_clock_jump > 0 && self.rng.permille(c.f_clock_jump) {
@@ -441,6 +453,10 @@ impl RandomSched {
                 3600,
                 -(c.mpp_timeout as i64) / 2,
                 (c.mpp_timeout as i64) / 2 + 1,
+                65_537,
+                86_401,
+                -86_401,
+                1_000_000,
             ]);
             return Some(Op::ClockJump { secs });
         }
@@ -691,8 +707,10 @@ impl RandomSched {
             let now = sim.w.now_ms;
             for e in sim.or.entries.values() {
                 if let (Some(ws), Some(left)) = (e.wait_start_ms, e.time_left_ms) {
-                    let due = ws + left;
-                    if due > now {
+                    let due = ws.saturating_add(left);
+                    // Deadlines decades away (astronomic configured timeouts) are
+                    // never approached: tokio itself truncates sleeps at ~30 years.
+                    if due > now && due - now <= 10_000_000_000 {
                         let d = due - now;
                         deltas.push(d);
                         deltas.push(d.saturating_sub(3).max(1));
@@ -701,7 +719,7 @@ impl RandomSched {
                     }
                 }
             }
-            deltas.push(c.mpp_timeout * 1000 + 1);
+            deltas.push(c.mpp_timeout.min(10_000_000) * 1000 + 1);
             if self.rng.chance(1, 6) {
                 deltas.push(60_000);
                 deltas.push(59_998);
@@ -847,7 +865,7 @@ impl RandomSched {
         if held_unfrozen && self.time_pushes < 3 {
             self.time_pushes += 1;
             return Some(Op::Time {
-                ms: sim.w.cfg.mpp_timeout * 1000 + 61_000,
+                ms: sim.w.cfg.mpp_timeout.min(10_000_000) * 1000 + 61_000,
             });
         }
         None
